@@ -18,6 +18,7 @@ documented "needle must be the one given to the constructor" relation -- mcai/mm
              BOTH sides of `haystack.len() >= min_haystack_len()`: inside the domain the
              `assert!` is unreachable like every other panic; outside it there is no normal
              return and the only reachable panic is that `assert!` (exactness)
+  SPEC-POST  the public getter min_haystack_len() returns the value that DOC-PANIC's domain is stated in
   NO-ABORT   no call of abort/exit is reachable from a public entry point
 
 Not decided here (stated, not claimed): termination (an endless loop also "does not return
@@ -118,6 +119,13 @@ def run(ctx):
             ok = doc_reached.get((path, c), 0) > 0
             rep.add('DOC-PANIC-SITE', f"{path}|the documented assert! is what fires outside the domain", ok, cfg=c,
                     detail='' if ok else 'the documented assert! is not reachable when haystack.len() < min_haystack_len()')
+    # the domain of the documented panic is stated in terms of the PUBLIC getter: min_haystack_len() must return the very
+    # value the two-sided analysis above used (the stored minimum of the finder's first vector half)
+    gsites, _, gerrs = e2common.root_table(ctx, cfgs, r'::packedpair::Finder::min_haystack_len$', ('SPEC-POST',))
+    for cfg_, root_, err_ in gerrs:
+        rep.add('E2-ROOT', root_, False, cfg=cfg_, detail=err_.splitlines()[0][:300])
+    pk_g = e2common.emit(rep, gsites, [])
+    rep.floor('min_haystack_len-getters', pk_g.get('SPEC-POST', 0), 1)
     # NO-ABORT
     from .. import e2all
     for cfg in cfgs:
